@@ -39,6 +39,7 @@ import Csvq.Lemmas.Ltsv
 import Csvq.Lemmas.Fixed
 import Csvq.Lemmas.JsonTable
 import Csvq.Lemmas.EncFacts
+import Csvq.Lemmas.Encoding
 namespace Csvq.C02
 open Csvq.Csv
 
@@ -934,6 +935,136 @@ example :
   cases v <;> simp [AtomOK]
 
 end J
+
+/-! ## transcoding
+
+  The texts of the theorems above are lists of characters; a file is a list of bytes.  Between the two stands
+  the transform writer / decoder of go-text, here a `Codec` (Csvq.Model.Encoding): `enc` may refuse a text
+  (a character the encoding cannot spell), `dec` may report an error.
+    `roundtrip_encoded`   for ANY codec with `dec (enc s) = some s` (`Codec.Sound`): a writer followed by `enc`,
+                          then `dec` followed by the loader, gives what the loader gives on the text — every
+                          round-trip theorem above carries over to bytes (`csv_roundtrip_encoded`,
+                          `ltsv_roundtrip_encoded`, `fixed_roundtrip_encoded`); `refused_encoded`: nothing is
+                          written when the writer or the encoding refuses;
+    `utf8_roundtrip`, `utf8m_roundtrip`, `utf16_roundtrip`
+                          the real models are sound: UTF-8, UTF-8 with BOM, UTF-16 BE / LE with BOM (ExpectBOM)
+                          and without (IgnoreBOM) for EVERY text (all scalar values, surrogate pairs), and
+                          `utf16_usebom_roundtrip` the generic UTF16 (written big endian without BOM, read
+                          "the BOM decides") for every text that does not begin with U+FEFF / U+FFFE —
+                          `utf16_bom_counterexample`: such a first character is taken for a byte order mark;
+    Shift_JIS             stays an abstract sound codec (hypothesis of the `…_encoded` theorems).
+  The models are compared with go-text on generated texts and byte strings (ops c02.tenc / c02.tdec). -/
+
+namespace T
+open Csvq.Enc
+
+/-- what ends up in the file -/
+def writeWith {ε : Type} (C : Codec) (w : Except ε (List Char)) : Option (List Nat) :=
+  match w with
+  | .ok txt => C.enc txt
+  | .error _ => none
+
+/-- what the loader sees -/
+def readWith {α : Type} (C : Codec) (r : List Char → Except Err α) (b : List Nat) : Except Err α :=
+  match C.dec b with
+  | some txt => r txt
+  | none => .error .parse
+
+/-- **Any sound codec is transparent.** -/
+theorem roundtrip_encoded {ε α : Type} (C : Codec) (hC : C.Sound) (w : Except ε (List Char))
+    (r : List Char → Except Err α) (b : List Nat) (hw : writeWith C w = some b) :
+    ∃ txt, w = .ok txt ∧ readWith C r b = r txt := by
+  cases w with
+  | error e => simp [writeWith] at hw
+  | ok txt =>
+    refine ⟨txt, rfl, ?_⟩
+    simp only [writeWith] at hw
+    simp [readWith, hC txt b hw]
+
+/-- nothing is written exactly when the writer refuses the table or the encoding cannot spell its text -/
+theorem refused_encoded {ε : Type} (C : Codec) (w : Except ε (List Char)) :
+    writeWith C w = none ↔ (∃ e, w = .error e) ∨ (∃ txt, w = .ok txt ∧ C.enc txt = none) := by
+  cases w with
+  | error e => simp [writeWith]
+  | ok txt => simp [writeWith]
+
+theorem csv_roundtrip_encoded (C : Codec) (hC : C.Sound) (o : Opts) (t : Table) (hd : DelimOK o.delim)
+    (hq : o.quoteLB = true) (hs : Spellable o t) (b : List Nat) (hw : writeWith C (fileCsv o t) = some b) :
+    readWith C (decodeCsv o) b = .ok (canon o t) := by
+  obtain ⟨txt, h1, h2⟩ := roundtrip_encoded C hC (fileCsv o t) (decodeCsv o) b hw
+  obtain ⟨txt', h3, h4⟩ := csv_roundtrip o t hd hq hs
+  rw [h3] at h1
+  injection h1 with h1
+  rw [h2, ← h1, h4]
+
+theorem ltsv_roundtrip_encoded (C : Codec) (hC : C.Sound) (o : Ltsv.Opts) (t : Table) (hs : L.LtsvSpellable t)
+    (hr : L.LtsvReadable o t) (b : List Nat) (hw : writeWith C (Ltsv.fileLtsv o t) = some b) :
+    readWith C (Ltsv.decodeLtsv o) b = .ok (Ltsv.canon o t) := by
+  obtain ⟨txt, h1, h2⟩ := roundtrip_encoded C hC (Ltsv.fileLtsv o t) (Ltsv.decodeLtsv o) b hw
+  obtain ⟨txt', h3, h4⟩ := L.ltsv_roundtrip_partial o t hs hr
+  rw [h3] at h1
+  injection h1 with h1
+  rw [h2, ← h1, h4]
+
+theorem fixed_roundtrip_encoded (C : Codec) (hC : C.Sound) (wd : Char → Nat) (hwd : ∀ c, 1 ≤ wd c) (hw1 : wd ' ' = 1)
+    (o : Fixed.Opts) (P : List Nat) (t : Fixed.Table) (ho : o.positions = some P) (hs : F.FixedSpellable o P t)
+    (b : List Nat) (hw : writeWith C (Fixed.fileFixed wd o t) = some b) :
+    readWith C (Fixed.decodeFixed wd o P) b = .ok (Fixed.canon o t) := by
+  obtain ⟨txt, h1, h2⟩ := roundtrip_encoded C hC (Fixed.fileFixed wd o t) (Fixed.decodeFixed wd o P) b hw
+  rw [h2]
+  exact F.fixed_roundtrip_partial wd hwd hw1 o P t ho hs txt h1
+
+/-- **UTF-8**, every text -/
+theorem utf8_roundtrip : (codec .utf8).Sound := by
+  intro s b h
+  simp only [codec, Option.some.injEq] at h
+  subst h
+  simp [codec, Enc.decode, Enc.encode, decodeUtf8_roundtrip]
+
+/-- **UTF-8 with byte order mark**, every text -/
+theorem utf8m_roundtrip : (codec .utf8m).Sound := by
+  intro s b h
+  simp only [codec, Option.some.injEq] at h
+  subst h
+  simp only [codec, Enc.decode, Enc.encode, bom8, List.cons_append, List.nil_append]
+  have h1 : takeBom16 (0xEF :: 0xBB :: 0xBF :: encodeUtf8 s) = none := by simp [takeBom16]
+  rw [h1]
+  simp [decodeUtf8_roundtrip]
+
+/-- **UTF-16**, big and little endian, with byte order mark (read with ExpectBOM) and without (read with
+    IgnoreBOM): every text, all scalar values -/
+theorem utf16_roundtrip (e : Encoding) (he : e = .utf16be ∨ e = .utf16le ∨ e = .utf16bem ∨ e = .utf16lem) :
+    (codec e).Sound := by
+  intro s b h
+  simp only [codec, Option.some.injEq] at h
+  subst h
+  rcases he with rfl | rfl | rfl | rfl
+  · simp [codec, Enc.decode, Enc.encode, decodeUtf16, decodeUtf16F_roundtrip]
+  · simp [codec, Enc.decode, Enc.encode, decodeUtf16, decodeUtf16F_roundtrip]
+  · simp only [codec, Enc.decode, Enc.encode, decodeUtf16, takeBom16_bom]
+    simp [decodeUtf16F_roundtrip]
+  · simp only [codec, Enc.decode, Enc.encode, decodeUtf16, takeBom16_bom]
+    simp [decodeUtf16F_roundtrip]
+
+/-- the generic UTF16: every text that does not begin with a byte order mark character -/
+theorem utf16_usebom_roundtrip (s : List Char)
+    (h : ∀ c cs, s = c :: cs → c.toNat ≠ 0xFEFF ∧ c.toNat ≠ 0xFFFE) :
+    Enc.decode .utf16 (Enc.encode .utf16 s) = some s := by
+  simp only [Enc.decode, Enc.encode, decodeUtf16, takeBom16_encode .big s h]
+  simp [decodeUtf16F_roundtrip]
+
+theorem utf16_bom_counterexample :
+    Enc.decode .utf16 (Enc.encode .utf16 [Char.ofNat 0xFEFF, 'a']) = some ['a'] ∧
+    Enc.decode .utf16 (Enc.encode .utf16 [Char.ofNat 0xFFFE, 'a']) = some [Char.ofNat 0x6100] := by
+  refine ⟨by decide, by decide⟩
+
+/-- the byte size go-text counts for a character (`RuneByteSize`, the `wd` of the fixed-length model) is the
+    number of bytes the encoder writes for it -/
+theorem rune_byte_size (e : Encoding) (c : Char) :
+    runeByteSize e c = (Enc.encode (match e with | .utf8m => .utf8 | .utf16bem => .utf16be | .utf16lem => .utf16le | e => e) [c]).length := by
+  cases e <;> simp [runeByteSize, Enc.encode, encodeUtf8, encodeUtf16, unitsBytes_length]
+
+end T
 
 /-! ## the decisions csvq itself takes, REGENERATED from /repo on every run
 
